@@ -564,7 +564,9 @@ pub fn solo_signatures() -> String {
         signature_json(&signature(&log, &locs))
     };
     format!(
-        "{{\"action\":{},\"pending\":{},\"wait\":{},\"close\":{},\"poll_nonblocking\":{}}}",
+        "{{\"add\":{},\"add_again\":{},\"action\":{},\"pending\":{},\"wait\":{},\"close\":{},\"poll_nonblocking\":{}}}",
+        one("p", "a12", 1),
+        one("p", "a10", 1),
         one("p", "D10", 1),
         one("p", "D10", 0),
         one("w", "D10", 0),
